@@ -357,6 +357,207 @@ def check(ctx):
             if not bufs or any(tuple(b.shape) != (N, 1) or not bool(b.isfinite().all()) for b in bufs.values()):
                 ctx.fail("after a zero-horizon simulation the buffers are not finite series of shape (n_paths, 1)", case, key=f"instrument:{iname}:one-step:value",
                          detail={k: list(b.shape) for k, b in bufs.items()})
+    # ---------------- corpus, every tier: the functional form and the instrument built on it, called with the SAME arguments.  Two classes:
+    # (a) INTEGER-typed initial states (a stock quoted at 100 written (100,), 100, torch.tensor(100), ...: Python ints / bools, int64 / int32 /
+    # bool tensors, 0-dim and 1-element, in a tuple or bare, mixed with floats) with the dtype left UNSET (then the documented default applies:
+    # the global default dtype, under either global default) and set to float32 / float64 -- every generator and every primary instrument
+    # returns a finite (paths, steps) series of that FLOATING dtype whose first column is the requested number, as for a float state;
+    # (b) parameters at asymmetric / boundary-admissible values (every two parameters of one type differ, so that no two can change places
+    # unnoticed; jump sizes >= 1, probabilities 0 and 1, correlations -1 / 0 / 1, zero volatilities / intensities, negative drifts and levels,
+    # other time grids) and just outside the admissible set: an instrument accepts EXACTLY what its generator accepts (simulate() succeeds iff the
+    # functional with the same parameters does) and, under the same seed, registers the very series the functional returns.
+    def twin_functional(gname, N_, n_, init_arg, params, sigma_fn, dtype):
+        kw = dict(params) | ({} if dtype is None else {"dtype": dtype}) | ({} if init_arg is None else {"init_state": init_arg})
+        if gname == "local_volatility":
+            o_ = S.generate_local_volatility_process(N_, n_, sigma_fn, **kw)
+            return {"spot": o_.spot, "volatility": o_.volatility}
+        o_ = getattr(S, "generate_" + gname)(N_, n_, **kw)
+        return {"spot": o_.spot, "variance": o_.variance} if gname in ("heston", "rough_bergomi") else {"spot": o_}
+
+    def twin_instrument(gname, N_, n_, init_arg, params, sigma_fn, dtype):
+        kw = dict(params) | ({} if dtype is None else {"dtype": dtype})
+        cls = getattr(I, INSTRUMENTS[gname])
+        inst = cls(sigma_fn, **kw) if gname == "local_volatility" else cls(**kw)
+        inst.simulate(n_paths=N_, time_horizon=(n_ - 1) * inst.dt, init_state=init_arg)
+        return dict(inst.named_buffers())
+
+    def twin_pair(gname, N_, n_, init_arg, params, sigma_fn, dtype, seed):
+        """[functional, instrument (None when the generator has none)] -> ("ok", series) / ("error", repr), same torch seed"""
+        res = []
+        for fn_ in (twin_functional,) + ((twin_instrument,) if gname in INSTRUMENTS else ()):
+            torch.manual_seed(seed)
+            try:
+                res.append(("ok", fn_(gname, N_, n_, init_arg, params, sigma_fn, dtype)))
+            except RecursionError:
+                res.append(("error", "RecursionError"))
+            except Exception as e:  # noqa
+                res.append(("error", repr(e)[:200]))
+        return res + [None] * (2 - len(res))
+
+    def same_series(a, b):
+        return tuple(a.shape) == tuple(b.shape) and a.dtype == b.dtype and bool(((a == b) | (a.isnan() & b.isnan())).all())
+
+    def twin_compare(gname, case, fun, ins, key):
+        """the iff and the identity of the series; True when both returned"""
+        iname = INSTRUMENTS[gname]
+        if fun[0] != ins[0]:
+            ctx.fail(("the generator accepts these arguments, the instrument built on it raises" if fun[0] == "ok" else
+                      "the generator rejects these arguments, the instrument built on it simulates") + " (an instrument accepts exactly what its generator accepts)",
+                     case, key=f"{key}:{iname}:" + ("instrument-raises" if fun[0] == "ok" else "instrument-accepts"),
+                     detail={"functional": fun[1] if fun[0] == "error" else "ok", "instrument": ins[1] if ins[0] == "error" else "ok"})
+            return False
+        if fun[0] == "error":
+            ctx.stats[f"{key}:both-reject"] += 1
+            return False
+        diff = [k for k, t in fun[1].items() if k not in ins[1] or not same_series(t, ins[1][k])] + [k for k in ins[1] if k not in fun[1]]
+        if diff:
+            k0 = diff[0]
+            ctx.fail("under the same seed the instrument's buffers are not the series its generator returns for the same arguments", case | {"series": diff},
+                     key=f"{key}:{iname}:differs-from-functional",
+                     detail={"functional": [float(x) for x in fun[1][k0][0].tolist()][:4] if k0 in fun[1] else None,
+                             "instrument": [float(x) for x in ins[1][k0][0].tolist()][:4] if k0 in ins[1] else None})
+        return True
+
+    def well_formed(gname, entry, series, N_, n_, want, state, case, key):
+        bad = {k: [list(t.shape), str(t.dtype)] for k, t in series.items() if tuple(t.shape) != (N_, n_) or t.dtype != want or not bool(t.isfinite().all())}
+        if bad or "spot" not in series:
+            ctx.fail("a series is not a finite (paths, steps) tensor of the requested (unset: the global default) floating dtype", case | {"entry": entry},
+                     key=f"{key}:{entry}:malformed", detail=bad)
+            return
+        for bn, w in zip(["spot", "variance"], state or ()):
+            wq = float(torch.tensor(float(w), dtype=want))
+            col = [float(x) for x in series[bn][:, 0].tolist()]
+            if any(c != wq for c in col):
+                ctx.fail("the first column differs from the requested initial state", case | {"entry": entry, "series": bn}, key=f"{key}:{entry}:first-column",
+                         detail={"first_column": col, "requested": wq})
+        if gname in POSITIVE and not bool((series["spot"] > 0).all()):
+            ctx.fail("an exponential-type price process is not positive", case | {"entry": entry}, key=f"{key}:{entry}:positivity")
+        if gname in ("cir", "heston") and not bool((series["spot" if gname == "cir" else "variance"] >= 0).all()):
+            ctx.fail("a variance process is negative", case | {"entry": entry}, key=f"{key}:{entry}:variance-negative")
+        if "volatility" in series and "variance" in series and not torch.equal(series["volatility"], series["variance"].clamp(min=0.0).sqrt()):
+            ctx.fail("volatility is not the square root of the variance", case | {"entry": entry}, key=f"{key}:{entry}:volatility")
+
+    lv_flat = lambda t, s: 0.2 + 0.0 * s      # noqa
+
+    def int_spellings(state):
+        """[(name, init_state argument)]: the ways of writing the whole-number state `state` (a tuple of ints) WITHOUT any floating type"""
+        T = lambda x, dt_, shape=None: torch.tensor(x if shape is None else [x], dtype=dt_)      # noqa
+        forms = [("tuple of ints", tuple(state)), ("tuple of 0-dim int64 tensors", tuple(T(x, torch.int64) for x in state)),
+                 ("tuple of 0-dim int32 tensors", tuple(T(x, torch.int32) for x in state)),
+                 ("tuple of 1-element int64 tensors", tuple(T(x, torch.int64, 1) for x in state))]
+        if len(state) == 1:
+            forms += [("bare int", state[0]), ("bare 0-dim int64 tensor", T(state[0], torch.int64)), ("bare 1-element int64 tensor", T(state[0], torch.int64, 1))]
+        else:
+            forms += [("tuple (int, float)", (state[0], float(state[1]))), ("tuple (float, 0-dim int64 tensor)", (float(state[0]), T(state[1], torch.int64))),
+                      ("tuple (0-dim int64 tensor, int)", (T(state[0], torch.int64), state[1]))]
+        if all(x in (0, 1) for x in state):
+            forms += [("tuple of bools", tuple(bool(x) for x in state)), ("tuple of 0-dim bool tensors", tuple(T(bool(x), torch.bool) for x in state))]
+        return forms
+    # (b): True = admissible (both must return well-formed series), None = boundary / outside (only the iff and the identity of the series)
+    GB_, VA_, CI_ = ("sigma", "mu"), ("kappa", "theta", "sigma"), ("kappa", "theta", "sigma")
+    HE_, MJ_ = ("kappa", "theta", "sigma", "rho"), ("mu", "sigma", "jump_per_year", "jump_mean", "jump_std")
+    KJ_, RB_ = ("sigma", "mu", "jump_per_year", "jump_mean_up", "jump_mean_down", "jump_up_prob"), ("alpha", "rho", "eta", "xi")
+    TWIN = {
+        "geometric_brownian": (GB_, [((0.3, 0.1), True), ((0.05, -0.5), True), ((1.5, 2.0), True), ((0.0, 0.25), None)]),
+        "vasicek": (VA_, [((2.0, 0.1, 0.03), True), ((0.5, -0.01, 0.2), True), ((0.1, 0.0, 0.0), True), ((0.0, 0.5, 0.1), None)]),
+        "cir": (CI_, [((2.0, 0.09, 0.5), True), ((0.1, 0.2, 2.0), True), ((5.0, 0.04, 0.01), True), ((1.0, 0.5, 0.0), None), ((0.0, 0.04, 0.2), None)]),
+        "heston": (HE_, [((2.0, 0.09, 0.5, 0.3), True), ((0.1, 0.2, 2.0, -0.95), True), ((5.0, 0.04, 0.01, 0.0), True), ((1.5, 0.09, 0.3, -1.0), None),
+                         ((1.5, 0.09, 0.3, 1.0), None), ((1.0, 0.04, 0.2, 1.5), None)]),
+        "merton_jump": (MJ_, [((0.1, 0.3, 20.0, -0.2, 0.05), True), ((-0.3, 0.25, 5.0, 0.3, 0.0), True), ((0.05, 0.4, 0.0, -0.1, 0.2), True),
+                              ((0.2, 0.1, 2.0, -1.5, 1.0), True), ((0.1, 0.3, 10.0, 0.05, -0.1), None), ((0.1, 0.3, -1.0, 0.05, 0.1), None)]),
+        "kou_jump": (KJ_, [((0.3, 0.1, 20.0, 0.3, 1.0, 0.4), True), ((0.25, -0.2, 20.0, 0.1, 1.5, 0.5), True), ((0.2, 0.05, 5.0, 0.5, 2.5, 0.7), True),
+                           ((0.2, 0.1, 10.0, 0.99, 0.01, 0.3), True), ((0.3, 0.1, 10.0, 0.05, 0.02, 0.0), True), ((0.3, 0.1, 10.0, 0.05, 0.02, 1.0), True),
+                           ((0.3, 0.1, 0.0, 0.25, 1.25, 0.5), True), ((0.3, 0.1, 10.0, 1.0, 0.5, 0.5), None), ((0.3, 0.1, 10.0, 1.5, 0.25, 0.5), None),
+                           ((0.3, 0.1, 10.0, 0.25, 0.0, 0.5), None), ((0.3, 0.1, 10.0, 0.0, 0.25, 0.5), None), ((0.3, 0.1, 10.0, -0.25, 0.5, 0.5), None),
+                           ((0.3, 0.1, 10.0, 0.25, -0.5, 0.5), None), ((0.3, 0.1, 10.0, 0.25, 0.5, 1.5), None), ((0.3, 0.1, 10.0, 0.25, 0.5, -0.5), None)]),
+        "rough_bergomi": (RB_, [((-0.3, -0.5, 1.0, 0.09), True), ((0.1, 0.5, 0.5, 0.2), True), ((-0.45, 0.0, 2.5, 0.01), True), ((-0.4, -1.0, 1.9, 0.04), None),
+                                ((-0.4, 1.0, 1.9, 0.04), None)]),
+        "local_volatility": ((), [((), True)]),
+    }
+    LV_FNS = [("0.2", lv_flat), ("0.1 + 0.05 * spot + 0.3 * time", lambda t, s: 0.1 + 0.05 * s + 0.3 * t), ("full_like(spot, 0.4)", lambda t, s: torch.full_like(s, 0.4))]
+    TW_STATES = {"vasicek": [None, (0.0625,)], "cir": [None, (0.0625,)], "heston": [None, (2.5, 0.0625)], "rough_bergomi": [None, (2.5, 0.0625)]}
+    twin_i = 0
+    for gname, (names_, rows) in TWIN.items():
+        for ri, (vals, admissible) in enumerate(rows):
+            for state in TW_STATES.get(gname, [None, (2.5,)]):
+                for dname in (None, "float32", "float64"):
+                    twin_i += 1
+                    dtype = None if dname is None else getattr(torch, dname)
+                    want = torch.get_default_dtype() if dtype is None else dtype
+                    dt_ = [1 / 250, 1 / 365, 0.1, 1 / 12][twin_i % 4]
+                    N_, n_ = [1, 2, 3, 6][(twin_i // 2) % 4], [1, 2, 5, 11][(twin_i // 3) % 4] + (1 if gname == "rough_bergomi" else 0)
+                    lvn, lvf = LV_FNS[twin_i % len(LV_FNS)]
+                    params = dict(zip(names_, vals)) | ({} if twin_i % 5 == 0 else {"dt": dt_})
+                    case = {"corpus": "instrument and generator, same arguments", "generator": gname, "instrument": INSTRUMENTS[gname], "params": params,
+                            "sigma_fn": lvn if gname == "local_volatility" else None, "init_state": None if state is None else list(state), "dtype": dname,
+                            "n_paths": N_, "n_steps": n_, "torch_seed": 5000 + twin_i, "admissible": admissible}
+                    ctx.case(case, True, tag="twin")
+                    ctx.stats[f"twin:{gname}"] += 1
+                    ctx.traces += 1
+                    fun, ins = twin_pair(gname, N_, n_, state, params, lvf, dtype, 5000 + twin_i)
+                    if admissible:
+                        # (without init_state: the documented default of the generator -- for the instrument the documented default of the class)
+                        for entry, r_ in ((gname, fun), (INSTRUMENTS[gname], ins)):
+                            if r_[0] != "ok":
+                                ctx.fail("a generator / instrument raised on admissible parameters", case | {"entry": entry}, key=f"twin:{entry}:error", detail=r_[1])
+                            elif dname != "float32" or all(bool(t.isfinite().all()) for t in r_[1].values()):
+                                well_formed(gname, entry, r_[1], N_, n_, want, state, case, "twin")
+                    # (without init_state the documented defaults coincide: (1.0,), (theta,), (1.0, theta), (1.0, xi))
+                    twin_compare(gname, case, fun, ins, "twin")
+    # ... and random parameter sets (the sweep of the generator loop above), through the instrument and the functional
+    TW_KW = {"geometric_brownian": lambda p: {"sigma": p["sigma"], "mu": p["mu"]}, "vasicek": lambda p: {k: p[k] for k in VA_}, "cir": lambda p: {k: p[k] for k in CI_},
+             "heston": lambda p: {k: p[k] for k in HE_}, "rough_bergomi": lambda p: {k: p[k] for k in RB_}, "local_volatility": lambda p: {},
+             "merton_jump": lambda p: {"mu": p["mu"], "sigma": p["sigma"], "jump_per_year": p["lam"], "jump_mean": p["jm"], "jump_std": p["js"]},
+             "kou_jump": lambda p: {"sigma": p["sigma"], "mu": p["mu"], "jump_per_year": p["lam"], "jump_mean_up": p["mean_up"], "jump_mean_down": p["mean_down"],
+                                    "jump_up_prob": p["p_up"]}}
+    for it in range(60 if ctx.tier == "quick" else 600):
+        gname = g.choice(sorted(INSTRUMENTS))
+        p = gen_params(g, gname)
+        dname = g.choice(["float64", "float32", None])
+        dtype = None if dname is None else getattr(torch, dname)
+        state = (p["s0"], p["v0"]) if "s0" in p else (p["init"],)
+        sigma_fn = (lambda a, b, c: (lambda t, s: a + b * s + c * t))(p.get("a"), p.get("b"), p.get("c"))
+        seed = g.randint(0, 10 ** 6)
+        case = {"instrument and generator, same arguments": "random", "generator": gname, "instrument": INSTRUMENTS[gname], "params": p, "dtype": dname, "torch_seed": seed}
+        ctx.case(case, True, tag="twin-random")
+        ctx.stats[f"twin:{gname}"] += 1
+        ctx.traces += 1
+        fun, ins = twin_pair(gname, p["N"], p["n"], state, TW_KW[gname](p) | {"dt": p["dt"]}, sigma_fn, dtype, seed)
+        if fun[0] != "ok":
+            ctx.fail("generator raised on admissible parameters", case, key=f"gen:{gname}:error", detail=fun[1])
+        twin_compare(gname, case, fun, ins, "twin")
+    # (a)
+    INT_STATES = {"brownian": [(100,), (-2,)], "vasicek": [(1,), (0,)], "cir": [(1,), (0,)], "heston": [(100, 1), (1, 1)], "rough_bergomi": [(100, 1), (1, 1)]}
+    try:
+        for amb_name in ("float32", "float64"):
+            torch.set_default_dtype(getattr(torch, amb_name))
+            for gname in GENERATORS:
+                # (explicit parameters: the defaults of generate_merton_jump and MertonJumpStock are not the same numbers)
+                int_params = {"jump_per_year": 20.0, "jump_std": 0.05} if gname == "merton_jump" else {}
+                for si, state in enumerate(INT_STATES.get(gname, [(100,), (1,)])):
+                    for dname in (None, "float32", "float64") if amb_name == "float32" else (None,):
+                        dtype = None if dname is None else getattr(torch, dname)
+                        want = torch.get_default_dtype() if dtype is None else dtype
+                        for fi, (form, init_arg) in enumerate(int_spellings(state)):
+                            case = {"corpus": "integer-typed initial state", "generator": gname, "instrument": INSTRUMENTS.get(gname), "init_state": list(state),
+                                    "spelling": form, "dtype": dname, "global_default_dtype": amb_name, "n_paths": SP_N, "n_steps": SP_n, "torch_seed": 4000 + fi}
+                            ctx.case(case, True, tag="int-init")
+                            ctx.stats["int-init:dtype=" + str(dname)] += 1
+                            ctx.traces += 1
+                            fun, ins = twin_pair(gname, SP_N, SP_n, init_arg, int_params, lv_flat, dtype, 4000 + fi)
+                            for entry, r_ in ((gname, fun), (INSTRUMENTS.get(gname), ins)):
+                                if r_ is None:
+                                    continue
+                                if r_[0] != "ok":
+                                    ctx.fail("a generator / instrument raised on an integer-typed scalar initial state (" + form + "; dtype "
+                                             + ("unset" if dname is None else dname) + "): a float series starting at that number is due, as for " + repr(tuple(float(x) for x in state)),
+                                             case | {"entry": entry}, key=f"int-init:{entry}:error", detail=r_[1])
+                                else:
+                                    well_formed(gname, entry, r_[1], SP_N, SP_n, want, state, case, "int-init")
+                            if ins is not None and fun[0] == "ok" and ins[0] == "ok":
+                                twin_compare(gname, case, fun, ins, "int-init")
+    finally:
+        torch.set_default_dtype(torch.float32)
     # ---------------- instruments
     def build(name, dtype, dt=1 / 250):
         kw = {"dtype": dtype, "dt": dt}
